@@ -62,6 +62,27 @@ func (u *Universe) Leaves(full bool) []*Ty {
 	return l
 }
 
+// ExoticLeaves: unnamed types whose spelling is the point (goverter has to write them out in signatures, variables
+// and make() calls): function types with parameters, results and variadic parameters, directional channels, a channel
+// of receive-only channels, interfaces with methods and embedded interfaces, tagged and embedded struct fields, and the
+// basic kinds missing from the main alphabet.
+func (u *Universe) ExoticLeaves() []*Ty {
+	var l []*Ty
+	for _, b := range []string{"int8", "int16", "uint", "uint16", "uint32", "uint64", "float32", "complex64", "rune"} {
+		l = append(l, B(b))
+	}
+	p := N(u.Get("in", "P"))
+	l = append(l,
+		Fn("(xs ...int) bool"), Fn("(a int, b ...string)"), Fn("(a int, b string) (int, error)"), Fn("(in.P) out.P"), Fn("(func(...int)) func(...string)"),
+		Ch("->", B("int")), Ch("<-", B("int")), Ch("", Ch("<-", B("int"))), Ch("->", Ch("->", B("int"))), Ch("<-", p),
+		IfaceM("Name(prefix string) string"), IfaceM("error; Code() int"), IfaceM("M(xs ...int)"),
+		&Ty{K: Struct, Fields: []Field{{Name: "A", T: B("int"), Tag: `json:"a,omitempty"`}}},
+		&Ty{K: Struct, Fields: []Field{{Name: "A", T: B("int"), Tag: "q`uote"}, {Name: "B", T: Fn("(...string)"), Tag: `json:"b"`}}},
+		&Ty{K: Struct, Fields: []Field{{Name: "P", T: p, Embedded: true}, {Name: "Z", T: B("int")}}},
+	)
+	return l
+}
+
 // Comparable reports whether values of the type can be map keys.
 func (t *Ty) Comparable() bool {
 	u := t.Under()
